@@ -284,6 +284,13 @@ func (c *BackendConn) handle(raw []byte) {
 		c.replyNow(stream, &message.ProtocolError{ErrorMessage: fmt.Sprintf("Invalid message version. Got %d but previous messages on this connection had version %d", hdr.Version, c.Version)})
 		return
 	}
+	if _, isAuth := frm.Body.Message.(*message.AuthResponse); c.authPending && !isAuth {
+		// as a Cassandra node does: nothing but the authentication exchange until it has succeeded
+		w.Stat("backend.request_before_authentication")
+		w.UnexpectedAtBackend = append(w.UnexpectedAtBackend, fmt.Sprintf("%s: %s before the authentication completed", c, hdr.OpCode))
+		c.replyNow(stream, &message.ProtocolError{ErrorMessage: "Unexpected message " + hdr.OpCode.String() + ", expecting AUTH_RESPONSE"})
+		return
+	}
 	switch msg := frm.Body.Message.(type) {
 	case *message.Options:
 		w.Stat("backend.options")
@@ -338,6 +345,7 @@ func (c *BackendConn) handle(raw []byte) {
 		want := "\x00" + n.AuthUser + "\x00" + n.AuthPass
 		if string(msg.Token) == want {
 			c.authPending = false
+			w.Stat("backend.authenticated")
 			c.replyNow(stream, &message.AuthSuccess{})
 		} else {
 			c.replyNow(stream, &message.AuthenticationError{ErrorMessage: "Provided username and/or password are incorrect"})
